@@ -78,7 +78,7 @@ func (c *CheckCtx) evalAssumptions() {
 	c.assumptions["A-IMMUT: forms are immutable once built (C02), so the step relation may read a form in any heap of the iteration in which it exists (readsat points)"] = true
 	c.assumptions["let: only the shape errors, the opening of a new scope, the sequential evaluation of the bindings in that scope (loop invariant) and the tail continuation are checked; the relation of the body's outcome to the definition (letStepFull) is written but not checked (solver budget)"] = true
 	c.assumptions["try: only the empty form is checked against the definition (tryStepFull is written but not checked: solver budget)"] = true
-	c.assumptions["quasiquote: the template transformation quasiquote() is abstract (qqV); only that EVAL evaluates its result in tail position in the same scope is checked"] = true
+	c.assumptions["quasiquote: EVAL evaluates quasiquote()'s result in tail position in the same scope; the transform itself is checked under C12 (qqStep/qqRel); the evaluation lemma (transformed form evaluates to the substituted template) is not proved"] = true
 }
 
 func keepEval(o *Obligation) bool {
@@ -104,7 +104,7 @@ func init() {
 		ID: "C12", Level: "other",
 		Technique: "contract-based deductive verification: macroexpand's loop against the step relation mexpStep (operands unevaluated, head looked up in the caller's scope, repeat until the head is no macro), is_macro_call against isMacroCall, defmacro/macroexpand cases of EVAL against the definition, and evaluation of every form going through macroexpand first in the same scope",
 		DesignRef: "DESIGN.md §4 C12",
-		Explain:   "partial: macro call = evaluation of its expansion in the caller's scope is proved; the quasiquote template algebra is not (quasiquote() is abstract here)",
+		Explain:   "partial: macro call = evaluation of its expansion in the caller's scope is proved; quasiquote/qq_loop are proved to implement the syntactic quasiquote transform; that evaluating the transformed form yields the substituted template is not proved",
 		Run:       runC12,
 	})
 	register(&Property{
@@ -156,7 +156,7 @@ func runC08(c *CheckCtx) {
 }
 
 func runC12(c *CheckCtx) {
-	jobs := c.evalJobs([]string{"lisp.EVAL", "lisp.macroexpand", "lisp.is_macro_call", "types.Apply"})
+	jobs := c.evalJobs([]string{"lisp.EVAL", "lisp.macroexpand", "lisp.is_macro_call", "types.Apply", "lisp.quasiquote", "lisp.qq_loop", "lisp.starts_with"})
 	c.runJobs(jobs, func(o *Obligation) bool {
 		if !keepEval(o) {
 			return false
